@@ -285,13 +285,16 @@ structure St (V : Type) where
   bound : Option (Nat × V) := none     -- object the propagator was last bound to, and the value it then took
   rebinds : Nat := 0                   -- how many times the `orbit` setter ran
   prev : List (Option Int) := []       -- `Listener.prev` (date of the state it holds) per listener object
-  ver : Nat → Nat := fun _ => 0        -- how many times each orbit object was modified in place by the user
+  ver : Nat → Nat × Nat := fun _ => (0, 0)   -- how many times each orbit object was modified in place by the user:
+                                       -- (changes of its coordinates, changes of its drag terms bstar / ndot / ndotdot)
 
-/-- configuration that calls never write: the value of orbit object `i` after `k` in-place modifications by the
-user (`store i k`), the kind, the numerical set-up -/
+/-- configuration that calls never write: the value of orbit object `i` after `k = (k₁, k₂)` in-place modifications by the
+user (`store i k`), the kind, the numerical set-up; `sameState a b` is `Sgp4._state(a) == Sgp4._state(b)`: the coordinates,
+date, form and frame of the two orbit values are equal (their other attributes are not looked at) -/
 structure World (V : Type) where
   kind : Kind
-  store : Nat → Nat → V
+  store : Nat → Nat × Nat → V
+  sameState : V → V → Bool
   epoch : Nat → Int
   h : Int := 60000000
   order : Nat := 8
@@ -307,12 +310,12 @@ def bind {V : Type} (w : World V) (s : St V) (i : Nat) : St V :=
   else { s with bound := some (i, cur w s i), rebinds := s.rebinds + 1 }
 
 /-- `Sgp4.propagate`: `if self._state(self._orbit) != self._bound_to: self.orbit = self._orbit` — the satellite record is
-re-derived when the bound orbit object no longer has the value the record was computed from (the object stays the same:
-not a re-binding to another object) -/
-def refresh {V : Type} [DecidableEq V] (w : World V) (s : St V) : St V :=
+re-derived when the bound orbit object no longer has the STATE (`World.sameState`: coordinates, date, form, frame) the record
+was computed from (the object stays the same: not a re-binding to another object) -/
+def refresh {V : Type} (w : World V) (s : St V) : St V :=
   if w.kind = .sgp4 then
     match s.bound with
-    | some (j, v) => if v = cur w s j then s else { s with bound := some (j, cur w s j) }
+    | some (j, v) => if w.sameState v (cur w s j) then s else { s with bound := some (j, cur w s j) }
     | none => s
   else s
 
@@ -329,10 +332,12 @@ inductive Call
   | propagate (orb : Nat) (date : Int)
   | iter (orb : Nat) (a : Args) (ls : List Nat) (consume : Nat)
   | modify (orb : Nat)            -- the user changes elements of the orbit object in place (`orb[k] = x`)
+  | modifyMeta (orb : Nat)        -- the user changes a drag term of the orbit object in place (`orb.bstar = x`)
 deriving Repr
 
 def Call.isModify : Call → Bool
   | .modify _ => true
+  | .modifyMeta _ => true
   | _ => false
 
 /-- the iterator of a call, and whether `clear_listeners` is reached before it ends -/
@@ -360,7 +365,7 @@ structure Result (R : Type) where
 
 /-- one call on the shared objects. `consume` = number of items taken from the generator before it is dropped
 (0 = the generator is created but never started). -/
-def exec {V R : Type} [DecidableEq V] (w : World V) (f : V → Int → R) (cross : V → Int → Int → Bool) (fuel : Nat)
+def exec {V R : Type} (w : World V) (f : V → Int → R) (cross : V → Int → Int → Bool) (fuel : Nat)
     (s : St V) : Call → St V × Result R
   | .propagate i date =>
     let s1 := refresh w (bind w s i)
@@ -388,10 +393,12 @@ def exec {V R : Type} [DecidableEq V] (w : World V) (f : V → Int → R) (cross
       let evs := ls.map (fun j => events (cross v) (prev0.getD j none) taken)
       ({ s2 with prev := prev1 }, ⟨⟨taken, fin⟩, taken.map (f v), evs⟩)
   | .modify i =>
-    ({ s with ver := fun j => if j = i then s.ver j + 1 else s.ver j }, ⟨⟨[], .done⟩, [], []⟩)
+    ({ s with ver := fun j => if j = i then ((s.ver j).1 + 1, (s.ver j).2) else s.ver j }, ⟨⟨[], .done⟩, [], []⟩)
+  | .modifyMeta i =>
+    ({ s with ver := fun j => if j = i then ((s.ver j).1, (s.ver j).2 + 1) else s.ver j }, ⟨⟨[], .done⟩, [], []⟩)
 
 /-- a history of calls from a given state -/
-def runHist {V R : Type} [DecidableEq V] (w : World V) (f : V → Int → R) (cross : V → Int → Int → Bool) (fuel : Nat)
+def runHist {V R : Type} (w : World V) (f : V → Int → R) (cross : V → Int → Int → Bool) (fuel : Nat)
     (s : St V) : List Call → St V
   | [] => s
   | c :: r => runHist w f cross fuel (exec (R := R) w f cross fuel s c).1 r
